@@ -80,7 +80,7 @@ var c07S = c07Stages()
 
 // records: label sets subset of {a=1,b=2,c=x} x lines with/without ANSI sequences
 func c07Records() []mockq.Rec {
-	lines := []string{"l", "", "\x1b[31mred\x1b[0m", "\x1b[1;32mg", "[31m plain", "\x1b", "pre\x1b[0mpost\x1b[38;5;12mx"}
+	lines := []string{"l", "", "\x1b[31mred\x1b[0m", "\x1b[1;32mg", "[31m plain", "\x1b", "pre\x1b[0mpost\x1b[38;5;12mx", "\u009b1;31mred\u009b0m plain"}
 	var out []mockq.Rec
 	ts := int64(0)
 	for mask := 0; mask < 8; mask++ {
@@ -212,7 +212,7 @@ func c07Run(r *vkit.Run) {
 			}
 		}
 	}
-	r.Note("bounds", fmt.Sprintf("%d records (all 8 subsets of {a=1,b=2,c=x} x 7 lines with SGR sequences, lone ESC, bracket text without ESC) x all single stages, ordered pairs and triples (quick: a third of the triples) over %d stages: label_format renames/templates (incl. missing source, failing template, overwriting), line_format (labels, __line__, __timestamp__, failing, missing label), drop/keep with names and =,!=,=~,!~ matchers, decolorize", len(c07Data), len(c07S)))
+	r.Note("bounds", fmt.Sprintf("%d records (all 8 subsets of {a=1,b=2,c=x} x 8 lines with SGR sequences (ESC [ and U+009B introducers), lone ESC, bracket text without ESC) x all single stages, ordered pairs and triples (quick: a third of the triples) over %d stages: label_format renames/templates (incl. missing source, failing template, overwriting), line_format (labels, __line__, __timestamp__, failing, missing label), drop/keep with names and =,!=,=~,!~ matchers, decolorize", len(c07Data), len(c07S)))
 }
 
 func c07Replay(r *vkit.Run, v vkit.Violation) *vkit.Violation {
